@@ -1,5 +1,6 @@
 use std::io::SeekFrom;
 use crate::*;
+use crate::serialization::utils::check_len;
 
 impl cbor_event::se::Serialize for NativeScript {
     fn serialize<'se, W: Write>(
@@ -199,8 +200,9 @@ impl Deserialize for ScriptPubkey {
 impl DeserializeEmbeddedGroup for ScriptPubkey {
     fn deserialize_as_embedded_group<R: BufRead + Seek>(
         raw: &mut Deserializer<R>,
-        /*read_len: &mut CBORReadLen, */ _: cbor_event::Len,
+        /*read_len: &mut CBORReadLen, */ len: cbor_event::Len,
     ) -> Result<Self, DeserializeError> {
+        check_len(len, 2, "(0, addr_keyhash)")?;
         (|| -> Result<_, DeserializeError> {
             let index_0_value = raw.unsigned_integer()?;
             if index_0_value != 0 {
@@ -264,8 +266,9 @@ impl Deserialize for ScriptAll {
 impl DeserializeEmbeddedGroup for ScriptAll {
     fn deserialize_as_embedded_group<R: BufRead + Seek>(
         raw: &mut Deserializer<R>,
-        /*read_len: &mut CBORReadLen, */ _: cbor_event::Len,
+        /*read_len: &mut CBORReadLen, */ len: cbor_event::Len,
     ) -> Result<Self, DeserializeError> {
+        check_len(len, 2, "(1, native_scripts)")?;
         (|| -> Result<_, DeserializeError> {
             let index_0_value = raw.unsigned_integer()?;
             if index_0_value != 1 {
@@ -329,8 +332,9 @@ impl Deserialize for ScriptAny {
 impl DeserializeEmbeddedGroup for ScriptAny {
     fn deserialize_as_embedded_group<R: BufRead + Seek>(
         raw: &mut Deserializer<R>,
-        /*/*read_len: &mut CBORReadLen, */*/ _: cbor_event::Len,
+        /*/*read_len: &mut CBORReadLen, */*/ len: cbor_event::Len,
     ) -> Result<Self, DeserializeError> {
+        check_len(len, 2, "(2, native_scripts)")?;
         (|| -> Result<_, DeserializeError> {
             let index_0_value = raw.unsigned_integer()?;
             if index_0_value != 2 {
@@ -395,8 +399,9 @@ impl Deserialize for ScriptNOfK {
 impl DeserializeEmbeddedGroup for ScriptNOfK {
     fn deserialize_as_embedded_group<R: BufRead + Seek>(
         raw: &mut Deserializer<R>,
-        /*read_len: &mut CBORReadLen, */ _: cbor_event::Len,
+        /*read_len: &mut CBORReadLen, */ len: cbor_event::Len,
     ) -> Result<Self, DeserializeError> {
+        check_len(len, 3, "(3, n, native_scripts)")?;
         (|| -> Result<_, DeserializeError> {
             let index_0_value = raw.unsigned_integer()?;
             if index_0_value != 3 {
@@ -462,8 +467,9 @@ impl Deserialize for TimelockStart {
 impl DeserializeEmbeddedGroup for TimelockStart {
     fn deserialize_as_embedded_group<R: BufRead + Seek>(
         raw: &mut Deserializer<R>,
-        /*read_len: &mut CBORReadLen, */ _: cbor_event::Len,
+        /*read_len: &mut CBORReadLen, */ len: cbor_event::Len,
     ) -> Result<Self, DeserializeError> {
+        check_len(len, 2, "(4, slot)")?;
         (|| -> Result<_, DeserializeError> {
             let index_0_value = raw.unsigned_integer()?;
             if index_0_value != 4 {
@@ -526,8 +532,9 @@ impl Deserialize for TimelockExpiry {
 impl DeserializeEmbeddedGroup for TimelockExpiry {
     fn deserialize_as_embedded_group<R: BufRead + Seek>(
         raw: &mut Deserializer<R>,
-        /*read_len: &mut CBORReadLen, */ _: cbor_event::Len,
+        /*read_len: &mut CBORReadLen, */ len: cbor_event::Len,
     ) -> Result<Self, DeserializeError> {
+        check_len(len, 2, "(5, slot)")?;
         (|| -> Result<_, DeserializeError> {
             let index_0_value = raw.unsigned_integer()?;
             if index_0_value != 5 {
